@@ -5248,6 +5248,9 @@ class PyCdlib:
 
                     num_bytes_to_remove += self._remove_child_from_dr(parent,
                                                                       parent_index)
+                    # The relocation directory may have a Rock Ridge
+                    # continuation entry of its own (a long name).
+                    num_bytes_to_remove += self._remove_rr_ce_entry(parent)
 
                     num_bytes_to_remove += parent.get_data_length()
                     if parent.ptr is not None:
